@@ -158,7 +158,8 @@ impl SerialPortInfo {
             clock_frequency: 0.into(),
             precise_baud: 0.into(),
             namespace_string_len: 2.into(),
-            namespace_string_offset: (Self::len() as u16).into(),
+            // Offset from the start of the table, not of this sub-structure.
+            namespace_string_offset: ((TableHeader::len() + Self::len()) as u16).into(),
         }
     }
 }
